@@ -279,6 +279,24 @@ func (m c13) Case(c *Ctx, r *RNG) {
 			m.run(c, &t, p.bytes())
 			delete(p.Attrs, "no-such-attr")
 		}
+		// unknown member with an unusual name, as an attribute or as a relationship (round 15:
+		// a name that starts with "@" was skipped by the partial reader only)
+		if r.Chance(1, 6) {
+			n := r.Pick([]string{"@context", "@x", "@", "_x", "-x", "~x", "x@", "X", "9", "no-such-field", "x:y", "x y"})
+			if t.Attr(n) == nil && t.Rel(n) == nil {
+				if r.Bool() {
+					p.Attrs[n] = r.Pick([]string{"1", "null", `"s"`, "{}"})
+					m.run(c, &t, p.bytes())
+					delete(p.Attrs, n)
+					c.Count("unknown_attribute_odd_name")
+				} else {
+					p.Rels[n] = r.Pick([]string{"null", "[]", `{"id":"1","type":"` + t.Name + `"}`})
+					m.run(c, &t, p.bytes())
+					delete(p.Rels, n)
+					c.Count("unknown_relationship_odd_name")
+				}
+			}
+		}
 	}
 }
 
@@ -306,6 +324,21 @@ func (m c13) Directed(c *Ctx) {
 			m.run(c, &t, p.bytes())
 			p.Extra = true
 			m.run(c, &t, p.bytes())
+		}
+	}
+	c.Name = "odd-field-names"
+	for _, pre := range []string{"@", "_", "-", "~", "x@"} {
+		t := TypeSpec{Name: "t", Attrs: []AttrSpec{{Name: pre + "lang", Kind: KString}, {Name: "a2", Kind: KInt}},
+			Rels: []RelSpec{{Name: pre + "rel", ToOne: true, ToType: "t"}, {Name: "r2", ToType: "t"}}}
+		for _, in := range []string{
+			`{"id":"1","type":"t","attributes":{"` + pre + `lang":"fr"}}`,
+			`{"id":"1","type":"t","attributes":{"` + pre + `lang":"fr","a2":3}}`,
+			`{"id":"1","type":"t","relationships":{"` + pre + `rel":{"data":{"id":"2","type":"t"}}}}`,
+			`{"id":"1","type":"t","attributes":{"a2":3},"relationships":{"` + pre + `rel":{"data":null},"r2":{"data":[]}}}`,
+			`{"id":"1","type":"t","attributes":{"` + pre + `other":1}}`,
+			`{"id":"1","type":"t","relationships":{"` + pre + `other":{"data":null}}}`,
+		} {
+			m.run(c, &t, []byte(in))
 		}
 	}
 	c.Name = "witness-unknown-type"
